@@ -20,29 +20,29 @@
 -/
 namespace OVM.Ascii
 
-abbrev Ch := Nat
-abbrev Str := List Ch
+
+abbrev Str := List Nat   -- a text: byte values
 
 /-- text of a Lean string literal as bytes (ASCII literals only) -/
 def kw (s : String) : Str := s.toList.map Char.toNat
 
-def cNL : Ch := 10
-def cSP : Ch := 32
-def cQuote : Ch := 34
-def cHash : Ch := 35
-def cPlus : Ch := 43
-def cMinus : Ch := 45
-def cDot : Ch := 46
-def cZero : Ch := 48
-def cColon : Ch := 58
+def cNL : Nat := 10
+def cSP : Nat := 32
+def cQuote : Nat := 34
+def cHash : Nat := 35
+def cPlus : Nat := 43
+def cMinus : Nat := 45
+def cDot : Nat := 46
+def cZero : Nat := 48
+def cColon : Nat := 58
 
 /-- `std::isspace` in the classic locale: space, \t \n \v \f \r -/
-def isSpace (c : Ch) : Bool := c == 32 || (9 ≤ c && c ≤ 13)
+def isSpace (c : Nat) : Bool := c == 32 || (9 ≤ c && c ≤ 13)
 /-- the set `" \t\r\n"` of `FileManager::trimString` (FileManager.cc:70-71) -/
-def isTrim (c : Ch) : Bool := c == 32 || c == 9 || c == 13 || c == 10
-def isDigit (c : Ch) : Bool := 48 ≤ c && c ≤ 57
-def toUpper (c : Ch) : Ch := if 97 ≤ c && c ≤ 122 then c - 32 else c
-def toLower (c : Ch) : Ch := if 65 ≤ c && c ≤ 90 then c + 32 else c
+def isTrim (c : Nat) : Bool := c == 32 || c == 9 || c == 13 || c == 10
+def isDigit (c : Nat) : Bool := 48 ≤ c && c ≤ 57
+def toUpper (c : Nat) : Nat := if 97 ≤ c && c ≤ 122 then c - 32 else c
+def toLower (c : Nat) : Nat := if 65 ≤ c && c ≤ 90 then c + 32 else c
 def upper (s : Str) : Str := s.map toUpper
 def lower (s : Str) : Str := s.map toLower
 
@@ -156,7 +156,7 @@ def extractInt (ty : IntTy) (s : IStream) : Option Int × IStream :=
 /-! ### characters and words -/
 
 /-- `is >> c` for `char` / `unsigned char` -/
-def extractChar (s : IStream) : Option Ch × IStream :=
+def extractChar (s : IStream) : Option Nat × IStream :=
   match sentry s with
   | (s1, false) => (none, s1)
   | (s1, true) =>
@@ -192,7 +192,7 @@ structure FSt where
   expDig : Bool := false   -- an exponent digit was seen (strtod needs one)
 deriving DecidableEq, Repr
 
-def fMain (st : FSt) (c : Ch) : Option FSt :=
+def fMain (st : FSt) (c : Nat) : Option FSt :=
   if st.expSign && (c == cPlus || c == cMinus) then
     some { st with acc := st.acc ++ [c], expSign := false }
   else if isDigit c then
@@ -204,7 +204,7 @@ def fMain (st : FSt) (c : Ch) : Option FSt :=
   else none
 
 /-- one character; `none` = the scan stops in front of `c` -/
-def fStep (st : FSt) (c : Ch) : Option FSt :=
+def fStep (st : FSt) (c : Nat) : Option FSt :=
   if st.canSign && (c == cPlus || c == cMinus) then
     some { st with acc := st.acc ++ [c], canSign := false }
   else
@@ -283,7 +283,7 @@ inductive VT
 deriving DecidableEq, Repr
 
 inductive Atom
-  | int (i : Int) | chr (c : Ch) | flt (t : Str) | str (s : Str)
+  | int (i : Int) | chr (c : Nat) | flt (t : Str) | str (s : Str)
   | unk          -- indeterminate (default-constructed VectorT component, Vector11T.hh:112)
 deriving DecidableEq, Repr
 
